@@ -16,6 +16,7 @@ package main
 
 import (
 	"bytes"
+	"encoding/hex"
 	"fmt"
 	"math"
 	"math/rand/v2"
@@ -1443,6 +1444,71 @@ func c13ScanCanonical(b []byte) (*c13Scan, bool) {
 	return s, ok && len(s.problems) == 0
 }
 
+
+// c13NumberTable scans a text for number literals (outside strings) and returns the oracle's float table:
+// for every literal the bits of the magnitude of its (saturated) float64 value with strconv's shortest digits.
+func c13NumberTable(text []byte) []string {
+	seen := map[uint64]bool{}
+	var out []string
+	add := func(f float64) {
+		f = math.Abs(c13Saturate(f))
+		if f == 0 {
+			return
+		}
+		bits := math.Float64bits(f)
+		if seen[bits] {
+			return
+		}
+		seen[bits] = true
+		s := strconv.FormatFloat(f, 'e', -1, 64)
+		mant, exps, _ := strings.Cut(s, "e")
+		e10, _ := strconv.Atoi(exps)
+		out = append(out, fmt.Sprintf("%x:%s:%d", bits, strings.Replace(mant, ".", "", 1), e10+1))
+	}
+	for i := 0; i < len(text); {
+		switch ch := text[i]; {
+		case ch == '"':
+			i++
+			for i < len(text) && text[i] != '"' {
+				if text[i] == '\\' {
+					i++
+				}
+				i++
+			}
+			i++
+		case ch == '-' || (ch >= '0' && ch <= '9'):
+			j := i
+			for j < len(text) && strings.IndexByte("+-0123456789.eE", text[j]) >= 0 {
+				j++
+			}
+			if f, err := strconv.ParseFloat(string(text[i:j]), 64); err == nil || math.IsInf(f, 0) {
+				add(f)
+			}
+			i = j
+		default:
+			i++
+		}
+	}
+	return out
+}
+
+// c13CanonLine is the oracle request for one text together with the implementation's answer in the oracle's format.
+func c13CanonLine(c *Ctx, text []byte) (line, want string, ok bool) {
+	out, err, ok := c13CanonOne(c, "Value.Canonicalize", text)
+	if !ok {
+		return "", "", false
+	}
+	want = "err"
+	if err == nil {
+		want = "ok " + hx(out)
+	}
+	line = "cmp canon " + hx(text)
+	for _, e := range c13NumberTable(text) {
+		line += " " + e
+	}
+	return line, want, true
+}
+
 // ---- the predicate
 
 func c13Canonicalize(c *Ctx) {
@@ -1461,7 +1527,28 @@ func c13Canonicalize(c *Ctx) {
 			var sortLines []string
 			var sortWant []string
 			var sortIn [][]byte
+			var canonLines, canonWant []string
+			var canonIn [][]byte
+			addCanon := func(text []byte, class string) {
+				if or == nil {
+					return
+				}
+				if l, w, ok := c13CanonLine(c, text); ok {
+					canonLines, canonWant, canonIn = append(canonLines, l), append(canonWant, w), append(canonIn, text)
+					c.Hit("canon-corr/" + class + "/" + w[:2])
+				}
+			}
 			flushSort := func() {
+				if or != nil && len(canonLines) > 0 {
+					got := or.Ask(canonLines)
+					for i := range got {
+						if got[i] != canonWant[i] {
+							c.Violate("corr-canon", "Value.Canonicalize", canonIn[i], map[string]any{"text": trunc(string(canonIn[i]), 400), "impl": trunc(string(unhxOK(canonWant[i])), 400), "model": trunc(string(unhxOK(got[i])), 400),
+								"broken": "correspondence cmp.canon (Model.Canon.canonicalize vs Value.Canonicalize)"})
+						}
+					}
+				}
+				canonLines, canonWant, canonIn = nil, nil, nil
 				if or != nil && len(sortLines) > 0 {
 					got := or.Ask(sortLines)
 					for i := range got {
@@ -1485,6 +1572,10 @@ func c13Canonicalize(c *Ctx) {
 				t1 = st1.space(t1)
 				t2 := st2.spell(nil, tree)
 				c13CheckTree(c, tree, t1, t2)
+				addCanon(t1, "valid")
+				if r.IntN(4) == 0 {
+					addCanon(t2, "valid")
+				}
 
 				// member order of the top-level object vs the proven model sort
 				if tree.kind == '{' && len(tree.names) >= 2 && or != nil {
@@ -1510,13 +1601,15 @@ func c13Canonicalize(c *Ctx) {
 						}
 					}
 				}
-				if len(sortLines) >= 300 {
+				if len(sortLines) >= 300 || len(canonLines) >= 300 {
 					flushSort()
 				}
 
 				// invalid I-JSON derived from the same tree
 				if r.IntN(3) == 0 {
-					c13CheckInvalid(c, r, tree, st2)
+					if bad := c13CheckInvalid(c, r, tree, st2); bad != nil {
+						addCanon(bad, "invalid")
+					}
 				}
 			}
 			flushSort()
@@ -1667,7 +1760,7 @@ func c13CheckTree(c *Ctx, tree *c13Node, t1, t2 []byte) {
 }
 
 // c13CheckInvalid derives texts that are not valid I-JSON and checks they are rejected with the value untouched.
-func c13CheckInvalid(c *Ctx, r *rand.Rand, tree *c13Node, st *c13Style) {
+func c13CheckInvalid(c *Ctx, r *rand.Rand, tree *c13Node, st *c13Style) []byte {
 	const op = "Value.Canonicalize(invalid)"
 	var text []byte
 	class := ""
@@ -1725,7 +1818,7 @@ func c13CheckInvalid(c *Ctx, r *rand.Rand, tree *c13Node, st *c13Style) {
 			text = append(text, "}]x"[r.IntN(3)])
 		}
 		if jsontext.Value(text).IsValid() { // happened to stay valid
-			return
+			return nil
 		}
 		class = "syntax"
 	}
@@ -1734,15 +1827,26 @@ func c13CheckInvalid(c *Ctx, r *rand.Rand, tree *c13Node, st *c13Style) {
 	var err error
 	if p := guard(func() { err = v.Canonicalize() }); p != nil {
 		c.Panic(op, orig, p, map[string]any{"class": class})
-		return
+		return nil
 	}
 	c.Case("invalid:"+string(orig), true)
 	c.Hit("invalid/" + class)
 	if err == nil {
 		c.Violate("canon-accepts-invalid", op, orig, map[string]any{"class": class, "out": trunc(string(v), 600)})
-		return
+		return orig
 	}
 	if !bytes.Equal(v, orig) {
 		c.Violate("canon-error-mutates", op, orig, map[string]any{"class": class, "after": trunc(string(v), 600), "err": err.Error()})
 	}
+	return orig
+}
+
+// unhxOK decodes an `ok <hex>` answer for display (anything else is returned as is).
+func unhxOK(s string) []byte {
+	if h, ok := strings.CutPrefix(s, "ok "); ok {
+		if b, err := hex.DecodeString(h); err == nil {
+			return b
+		}
+	}
+	return []byte(s)
 }
